@@ -1,31 +1,52 @@
 /-
 C04 — Day-of-year and day-of-month ordinals are gap-free counts.
+
+"One plus the number of earlier dates in the same year" is stated through the first day
+`f` of the year: all of `f..j` lie in the year of day `j`, day `f-1` does not, and labels
+are monotone in the day number (C11), so the earlier same-year dates are exactly
+`f..j-1`.  Likewise for months.  Every calendar a caller can hold (`WF`), every integer
+day number.
 -/
-import JulianVerif.Lemmas.Proleptic
-import JulianVerif.Lemmas.YearStart
+import JulianVerif.Lemmas.Counts
 namespace JV.C04
 open JV Spec
 
-/-- proleptic calendars: the day-of-year ordinal of day `j` is one plus the number of days
-since January 1 of its year, the in-month ordinal is the day of the month, and the last day
-of a year has the year's length as its ordinal -/
-theorem ordinals_proleptic (ρ : Rule) (j : Int) :
-    ∃ d, (ruleCal ρ).atJdn? j = some d
-      ∧ d.ordinal = j - yearStart ρ d.year + 1
-      ∧ d.dayOrdinal = d.day
-      ∧ d.dayOrdinal = j - jdnOf ρ d.year d.month 1 + 1
-      ∧ 1 ≤ d.ordinal ∧ d.ordinal ≤ (ruleCal ρ).yearLength d.year := by
-  obtain ⟨y, m, dd, hat, hv, hjd⟩ := ruleCal_atJdn ρ j
-  refine ⟨_, hat, ?_, rfl, ?_, ?_, ?_⟩
-  · simp only [jdnOf] at hjd ⊢; omega
-  · simp only [jdnOf] at hjd ⊢; omega
-  · have := daysBefore_bounds (leap ρ y) m; simp only [ValidYMD] at hv; simp only; omega
-  · rw [ruleCal_yearLength]
-    have := daysBefore_bounds (leap ρ y) m
-    simp only [ValidYMD, yearLen] at *; omega
+/-- **the day-of-year ordinal equals one plus the number of earlier dates of the calendar
+in the same year**; days removed by a reformation are not counted, days before the
+reformation in the same year are -/
+theorem ordinal_counts (c : Calendar) (hc : WF c) (j : Int) (d : Date) (h : c.atJdn? j = some d) :
+    ∃ f, f ≤ j ∧ d.ordinal = j - f + 1
+      ∧ (∀ k d', f ≤ k → k ≤ j → c.atJdn? k = some d' → d'.year = d.year)
+      ∧ (∀ d', c.atJdn? (f - 1) = some d' → d'.year ≠ d.year) := by
+  obtain ⟨A⟩ := hc.accepting
+  exact A.ordinal_counts j d h
 
-/-- the zero-based variants are exactly one less -/
-theorem zero_based (d : Date) : d.ordinal0 = d.ordinal - 1 ∧ d.dayOrdinal0 = d.dayOrdinal - 1 :=
-  ⟨rfl, rfl⟩
+/-- **the day-of-month ordinal equals one plus the number of earlier dates in the same
+month** -/
+theorem dayOrdinal_counts (c : Calendar) (hc : WF c) (j : Int) (d : Date) (h : c.atJdn? j = some d) :
+    ∃ f, f ≤ j ∧ d.dayOrdinal = j - f + 1
+      ∧ (∀ k d', f ≤ k → k ≤ j → c.atJdn? k = some d' → d'.year = d.year ∧ d'.month = d.month)
+      ∧ (∀ d', c.atJdn? (f - 1) = some d' → ¬ (d'.year = d.year ∧ d'.month = d.month)) := by
+  obtain ⟨A⟩ := hc.accepting
+  exact A.dayOrdinal_counts j d h
+
+/-- **the last date of a year has the year's length as its ordinal** (and only the last) -/
+theorem last_of_year (c : Calendar) (hc : WF c) (j : Int) (d d' : Date) (h : c.atJdn? j = some d)
+    (h' : c.atJdn? (j + 1) = some d') : d'.year ≠ d.year ↔ d.ordinal = c.yearLength d.year := by
+  obtain ⟨A⟩ := hc.accepting
+  exact A.last_of_year j d d' h h'
+
+/-- the zero-based variants are exactly one less, and cannot underflow: ordinals are ≥ 1 -/
+theorem zero_based (c : Calendar) (hc : WF c) (j : Int) (d : Date) (h : c.atJdn? j = some d) :
+    d.ordinal0 = d.ordinal - 1 ∧ d.dayOrdinal0 = d.dayOrdinal - 1
+    ∧ 0 ≤ d.ordinal0 ∧ 0 ≤ d.dayOrdinal0 := by
+  obtain ⟨A⟩ := hc.accepting
+  obtain ⟨f, hf, ho, _⟩ := A.ordinal_counts j d h
+  obtain ⟨g, hg, hdo, _⟩ := A.dayOrdinal_counts j d h
+  refine ⟨rfl, rfl, ?_, ?_⟩ <;> simp only [Date.ordinal0, Date.dayOrdinal0] <;> omega
+
+/-- non-vacuity: October 15, 1582 is the 5th day of its month and the 278th of its year -/
+example : Calendar.reform1582.atJdn? 2299161
+    = some ⟨Calendar.reform1582, 1582, 278, .october, 15, 5, 2299161⟩ := rfl
 
 end JV.C04
